@@ -19,6 +19,10 @@ pub enum ReqSel {
     Stored(u16),
     Stranger(u8),
     StrangerV6(u8),
+    /// a stranger sending from a public address (the table's records advertise private ones)
+    StrangerPublic(u8),
+    /// a stranger on the loopback interface
+    StrangerLoopback(u8),
 }
 
 #[derive(Clone, Debug, PartialEq, Eq, Hash, Serialize, Deserialize)]
@@ -43,6 +47,9 @@ pub struct Case {
     pub wire: Option<WireReq>,
     #[serde(default)]
     pub pipe: Option<Pipe>,
+    /// the answering node's own record advertises no UDP socket yet (as before its address is voted in)
+    #[serde(default)]
+    pub local_no_socket: bool,
 }
 
 /// Service and handler composed: the NODES packets a real service emits for a FINDNODE are handed to a
@@ -84,6 +91,7 @@ async fn run_pipe(c: &Pipe, rep: &mut CaseReport) -> Option<(String, String)> {
         foreign_enr_answer: vec![],
         v_session_timeout_ms: None,
         v_session_capacity: None,
+        v_dual_listen: false,
     };
     let mut w = World::new(cfg).await;
     act(&mut w, &Op::Submit { from: 1, to: 0, body: Body::FindNode(1), with_record: true });
@@ -195,6 +203,7 @@ async fn run_wire(c: &WireReq, rep: &mut CaseReport) -> Option<(String, String)>
         foreign_enr_answer: vec![],
         v_session_timeout_ms: None,
         v_session_capacity: None,
+        v_dual_listen: false,
     };
     let mut w = World::new(cfg).await;
     rep.class("wire-companion");
@@ -270,9 +279,13 @@ async fn run(case: &Case, rep: &mut CaseReport) -> Option<(String, String)> {
         key_idx: 0,
         mode: if case.dual { Mode::Dual } else { Mode::Ip4 },
         max_nodes_response: max,
+        local_no_socket: case.local_no_socket,
         ..Default::default()
     })
     .await;
+    if case.local_no_socket {
+        rep.class("local-record-without-a-socket");
+    }
     let max = max.unwrap_or(16);
     let mut stored_keys: Vec<u32> = Vec::new();
     for (k, size) in &case.entries {
@@ -301,6 +314,8 @@ async fn run(case: &Case, rep: &mut CaseReport) -> Option<(String, String)> {
                     (SocketAddr::V4(rec.udp4_socket().unwrap()), keys::id_of(key), Some(key))
                 }
                 ReqSel::StrangerV6(x) if case.dual => (svc_addr6(900 + x as u32), keys::id_of(900 + x as u32), None),
+                ReqSel::StrangerPublic(x) => (SocketAddr::new(std::net::IpAddr::V4(std::net::Ipv4Addr::new(198, 51, 100, 7 + x)), 30303 + x as u16), keys::id_of(900 + x as u32), None),
+                ReqSel::StrangerLoopback(x) => (SocketAddr::new(std::net::IpAddr::V4(std::net::Ipv4Addr::LOCALHOST), 9100 + x as u16), keys::id_of(900 + x as u32), None),
                 ReqSel::Stored(_) | ReqSel::Stranger(_) | ReqSel::StrangerV6(_) => {
                     let x = match sel {
                         ReqSel::Stranger(x) | ReqSel::StrangerV6(x) => x as u32,
@@ -506,7 +521,7 @@ fn ds_strategy() -> BoxedStrategy<Vec<u64>> {
 }
 
 fn req_strategy() -> BoxedStrategy<ReqSel> {
-    prop_oneof![3 => any::<u16>().prop_map(ReqSel::Stored), 2 => (0u8..4).prop_map(ReqSel::Stranger), 1 => (0u8..4).prop_map(ReqSel::StrangerV6)].boxed()
+    prop_oneof![3 => any::<u16>().prop_map(ReqSel::Stored), 2 => (0u8..4).prop_map(ReqSel::Stranger), 1 => (0u8..4).prop_map(ReqSel::StrangerV6), 1 => (0u8..4).prop_map(ReqSel::StrangerPublic), 1 => (0u8..4).prop_map(ReqSel::StrangerLoopback)].boxed()
 }
 
 impl Property for C14 {
@@ -528,8 +543,9 @@ impl Property for C14 {
             proptest::collection::vec((any::<u16>(), prop_oneof![3 => Just(300u16), 1 => Just(100u16), 2 => 100u16..=300]), 0..60),
             prop_oneof![3 => Just(None), 1 => (1u8..=20).prop_map(Some)],
             proptest::collection::vec(step, 1..8),
+            prop_oneof![5 => Just(false), 1 => Just(true)],
         )
-            .prop_map(|(dual, entries, max_nodes, steps)| Case { dual, entries, max_nodes, steps, wire: None, pipe: None });
+            .prop_map(|(dual, entries, max_nodes, steps, local_no_socket)| Case { dual, entries, max_nodes, steps, wire: None, pipe: None, local_no_socket });
         // a large configured maximum and a large table: answers of many packets
         let big_step = (id(), req_strategy(), any::<bool>()).prop_map(|(id, requester, all)| Step::FindNode { ds: if all { (240..=256u64).collect() } else { vec![256, 255, 254, 253, 252] }, id, requester });
         let big = (
@@ -538,11 +554,11 @@ impl Property for C14 {
             (46u8..=120).prop_map(Some),
             proptest::collection::vec(big_step, 1..3),
         )
-            .prop_map(|(dual, entries, max_nodes, steps)| Case { dual, entries, max_nodes, steps, wire: None, pipe: None });
-        let wire = (0u8..4, 0u8..3, 0u8..3, 1u8..=3).prop_map(|(nat_kind, know, body, requests)| Case { dual: false, entries: vec![], max_nodes: None, steps: vec![], wire: Some(WireReq { nat_kind, know, body, requests }), pipe: None });
+            .prop_map(|(dual, entries, max_nodes, steps)| Case { dual, entries, max_nodes, steps, wire: None, pipe: None, local_no_socket: false });
+        let wire = (0u8..4, 0u8..3, 0u8..3, 1u8..=3).prop_map(|(nat_kind, know, body, requests)| Case { dual: false, entries: vec![], max_nodes: None, steps: vec![], wire: Some(WireReq { nat_kind, know, body, requests }), pipe: None, local_no_socket: false });
         // record sizes that let the service's packing end a packet anywhere up to its bound of 1175 bytes
         let size = prop_oneof![3 => 100u16..=300, 2 => 286u16..=294, 1 => 230u16..=236, 1 => 191u16..=196, 1 => 164u16..=168];
-        let pipe = proptest::collection::vec(size, 4..=16).prop_map(|sizes| Case { dual: false, entries: vec![], max_nodes: None, steps: vec![], wire: None, pipe: Some(Pipe { sizes }) });
+        let pipe = proptest::collection::vec(size, 4..=16).prop_map(|sizes| Case { dual: false, entries: vec![], max_nodes: None, steps: vec![], wire: None, pipe: Some(Pipe { sizes }), local_no_socket: false });
         prop_oneof![60 => ordinary, 2 => big, 1 => wire, 4 => pipe].boxed()
     }
     fn run(case: &Case) -> CaseReport {
@@ -566,7 +582,7 @@ impl Property for C14 {
         rep
     }
     fn rule() -> String {
-        "a real Discv5 service with a scripted handler (IPv4 or dual stack, max_nodes_response default 16 or 1..20; one case in 31: 46..120 with a table of 70..129 records and requests for 5 or 17 distances, i.e. answers of up to ~40 packets) whose table holds 0..59 signed pool records of 100..300 bytes (60% exactly 300 bytes) in the reachable buckets; 1..7 injected requests: FINDNODE with distance lists that are empty / duplicated / unsorted / contain 0, 256, values > 256 (assertion-free) / up to 400 entries / the d,d+1,d-1 lists lookups generate, request ids of 0..8 bytes, requester = a stored node, a stranger, an IPv6 stranger; PING with arbitrary enr_seq from a normal source or source port 0; local record changes in between. Oracle on the HandlerIn::Response values the service emits: N1 id, destination, total = number of packets >= 1; N2 local record iff 0 requested, every other record is the stored record of a table entry at a requested distance, never the requester's, no duplicates, at most max_nodes_response, at least min(eligible, max[-1]); N3 each packet, encoded with the real message codec and wrapped as a message datagram with the real packet codec, is <= 1280 bytes; G1 exactly one PONG with the request id, the current local seq and the observed source ip/port; none for port 0. Distance lists: one in 11 is 200..1150 repeats of one distance followed by 1..3 others. Four cases in 67 compose service and handler (pipe companion): a real service whose table holds 4..16 records of 100..300 bytes (sizes chosen so that its packing ends packets anywhere up to the bound of 1175 bytes of records) answers a FINDNODE; its NODES packets are handed to a real handler that holds a session with the requester; each must appear on the wire exactly once, as sent, in a datagram of at most 1280 bytes. One case in 67 is a wire-engine companion (real handlers): a peer whose record advertises another ip and port / another port / another ip / nothing than the address it sends from, known to the answering node with its current record, an older one or not at all, sends 1..3 PING / FINDNODE / TALK requests over a loss-free wire: each must reach the answering node's application as coming from the observed address and be answered. Non-trivial = >=4 records of >=280 bytes forcing a split, or distance 0 together with other distances.".into()
+        "a real Discv5 service with a scripted handler (IPv4 or dual stack, max_nodes_response default 16 or 1..20; one case in 31: 46..120 with a table of 70..129 records and requests for 5 or 17 distances, i.e. answers of up to ~40 packets) whose table holds 0..59 signed pool records of 100..300 bytes (60% exactly 300 bytes) in the reachable buckets; 1..7 injected requests: FINDNODE with distance lists that are empty / duplicated / unsorted / contain 0, 256, values > 256 (assertion-free) / up to 400 entries / the d,d+1,d-1 lists lookups generate, request ids of 0..8 bytes, requester = a stored node, a stranger (private, public or loopback address), an IPv6 stranger; in one case in 6 the answering node's own record advertises no socket yet; PING with arbitrary enr_seq from a normal source or source port 0; local record changes in between. Oracle on the HandlerIn::Response values the service emits: N1 id, destination, total = number of packets >= 1; N2 local record iff 0 requested, every other record is the stored record of a table entry at a requested distance, never the requester's, no duplicates, at most max_nodes_response, at least min(eligible, max[-1]); N3 each packet, encoded with the real message codec and wrapped as a message datagram with the real packet codec, is <= 1280 bytes; G1 exactly one PONG with the request id, the current local seq and the observed source ip/port; none for port 0. Distance lists: one in 11 is 200..1150 repeats of one distance followed by 1..3 others. Four cases in 67 compose service and handler (pipe companion): a real service whose table holds 4..16 records of 100..300 bytes (sizes chosen so that its packing ends packets anywhere up to the bound of 1175 bytes of records) answers a FINDNODE; its NODES packets are handed to a real handler that holds a session with the requester; each must appear on the wire exactly once, as sent, in a datagram of at most 1280 bytes. One case in 67 is a wire-engine companion (real handlers): a peer whose record advertises another ip and port / another port / another ip / nothing than the address it sends from, known to the answering node with its current record, an older one or not at all, sends 1..3 PING / FINDNODE / TALK requests over a loss-free wire: each must reach the answering node's application as coming from the observed address and be answered. Non-trivial = >=4 records of >=280 bytes forcing a split, or distance 0 together with other distances.".into()
     }
     fn assumptions() -> Vec<String> {
         vec![
